@@ -374,6 +374,8 @@ class Interp(ExprMixin):
                 return self.call_internal(f, args, kwargs, st, node, self_val=None if f.is_static else recv)
             if name not in cls.attr_names():
                 self.note(st, 'B1', node, what=f'{cls.key} has no attribute {name!r}')
+        if isinstance(recv, Tup) and recv.kind == 'vec' and name in ('astype', 'copy'):
+            return recv
         if isinstance(recv, Const) and isinstance(recv.value, str) and name in ('lower', 'upper', 'strip') \
                 and all(isinstance(a, Const) and isinstance(a.value, str) for a in args):
             return Const(getattr(recv.value, name)(*[a.value for a in args]))
